@@ -138,9 +138,9 @@ add("C44", "vh-sched", True, "exploration",
     '2-3 tasks run generated scripts of lend / shared / get_ref / get_mut / drop loan / move loan / drop lender: a second live loan, access after removal, payload dropped other than exactly once after both sides are gone, double free, leak or poisoned read is a violation.',
     'Trusts shuttle and the harness futex/shm models; sequentially consistent interleavings at atomic/futex/mutex granularity only (no weak-memory reorderings; plain-memory races between scheduling points invisible); schedules sampled, not enumerated; liveness only as no-deadlock within the step bound (> 1% cut-offs => inconclusive); Miri tier not implemented.')
 add("C33", "vh-sched", True, "exploration",
-    'schedule-controlled property testing: generated per-task op scripts run under seeded shuttle schedules (uniform random; PCT in thorough) on a build-time instrumented copy of the source (atomics, futex, yield, std Mutex routed to the scheduler; substitution list asserted); quarantining allocator + content oracle on the reference-counted text representation',
-    '2-4 tasks clone, read-and-compare, move and drop 1-3 values around the inline/heap boundary: poisoned content (use after free), live blocks below the number of values with handles, double free or leak is a violation.',
-    'Trusts shuttle and the harness futex/shm models; sequentially consistent interleavings at atomic/futex/mutex granularity only (no weak-memory reorderings; plain-memory races between scheduling points invisible); schedules sampled, not enumerated; liveness only as no-deadlock within the step bound (> 1% cut-offs => inconclusive); Miri tier not implemented.')
+    'schedule-controlled property testing: generated per-task op scripts run under seeded shuttle schedules (uniform random; PCT in thorough) on a build-time instrumented copy of the source (atomics, futex, yield, std Mutex routed to the scheduler; substitution list asserted); quarantining allocator + content oracle on the reference-counted text representation; plus generated thread scenarios on the real crate interpreted by Miri (seeded scheduler, weak-memory emulation on/off) with its data-race / use-after-free / leak detection as the oracle',
+    '2-4 tasks clone, read-and-compare, move and drop 1-3 values around the inline/heap boundary: poisoned content (use after free), live blocks below the number of values with handles, double free or leak is a violation.  Part miri_ordering: 2-4 real threads clone/read/drop/hand over one text (main handle dropped before, between or after the joins) under Miri; any undefined behaviour (data race between a read and the deallocation, use after free, double free) or leak reported by Miri is a violation.',
+    'Trusts shuttle and the harness futex/shm models and, for the Miri part, Miri (nightly) and its implementation of the C++11 memory model; shuttle parts see sequentially consistent interleavings at atomic/futex/mutex granularity only; schedules sampled, not enumerated; liveness only as no-deadlock within the step bound (> 1% cut-offs => inconclusive).  The Miri sysroot is built offline by bin/setup (or by the check on first use) into target/miri-sysroot.')
 add("C40", "vh-sched", True, "exploration",
     'schedule-controlled property testing: generated per-task op scripts run under seeded shuttle schedules (uniform random; PCT in thorough) on a build-time instrumented copy of the source (atomics, futex, yield, std Mutex routed to the scheduler; substitution list asserted); channel-set / sequence-number model, plus model-based op sequences on the real crate',
     "Sequential op sequences on the real shm and memory states and concurrent writer + reader scripts on the instrumented copy: successful seals of one context carry 0,1,2,.. (each message decrypted with an independently built key at the header's sequence number) across cache invalidations and failed seals; the memory state refuses a second live context.",
@@ -169,11 +169,11 @@ add("C27", "vh-robust", True, "exploration",
     "Profile has debug assertions and overflow checks on; nesting depth bounded (stack exhaustion not examined); panics while *rendering* a returned error are recorded as labels only (outside the statement).")
 add("C31", "vh-robust", True, "exploration",
     "differential testing of the built policy-compiler binary against in-process library verdicts over generated documents of known class (proptest + process spawn)",
-    "Generated documents (parse error, compile error, compiles-but-fails-validation, valid; wrappers and flag combinations): exit status and output-file presence must equal parse and compile and (no-validate or validation passes); a written module must decode.",
-    "Expected verdict uses the tracer API with the same analyzers as validate(); the binary is built by the check from the repository working tree (dev profile).")
+    "Generated documents (parse error, compile error, compiles-but-fails-validation, valid; wrappers and flag combinations; generated function/action/policy bodies of nested if/else/match, runs of up to 69 check statements and else-if chains of up to 59 arms): exit status and output-file presence must equal parse and compile and (no-validate or validation passes); a written module must decode.  A generated function with a path that does not return (the generator's own termination model, independent of the library tracer) must be refused once it compiles.",
+    "Expected verdict uses the tracer API with the same analyzers as validate() and, for generated functions, the generator's termination model; the binary is built by the check from the repository working tree (dev profile).")
 add("C32", "vh-robust", True, "exploration",
     "model-based property testing of every constructor and decoder with cross-representation Eq/Ord/Hash comparison and archive mutation (proptest)",
-    "Every string or buffer goes through 12 construction routes and all byte and archive decoders (serde json/postcard/cbor, rkyv access and deserialize on arbitrary and mutated archives, concatenation, lengths around the inline/heap boundary); acceptance must equal the invariant predicates written from the statement; content and Eq/Ord/Hash must agree across static, inline and heap values and with str.",
+    "Every string or buffer goes through 12 construction routes and all byte and archive decoders (serde json/postcard/cbor text and byte strings, every serde visitor entry point incl. bytes / borrowed bytes / byte buf, rkyv access and deserialize on arbitrary and mutated archives, concatenation, lengths around the inline/heap boundary); acceptance must equal the invariant predicates written from the statement; content and Eq/Ord/Hash must agree across static, inline and heap values and with str.",
     "Hostile archives are produced by archiving a plain String (same layout); std's DefaultHasher stands for any hasher.")
 
 # not built yet: crate assignment only
